@@ -8,6 +8,7 @@ mod m_conc;
 mod m_diff;
 mod m_lin;
 mod m_obs;
+mod m_obs_async;
 mod m_ovec;
 
 use std::io::{BufRead, Write};
